@@ -187,9 +187,12 @@ def checks(f, errs=None, include_panics=False):
                 truth = not truth
             cond_op = op if truth else NEG[op]
             subj, other = a, c
+            subj_o, other_o = rv[2], rv[3]
             if isinstance(subj, int) and not isinstance(other, int):
                 subj, other, cond_op = other, subj, FLIP[cond_op]
-            out.append(dict(subject=subj, op=cond_op, other=other, pos=cmp_st[3], bb=b, fail_edge=(b, s, v), macro=cmp_st[4]))
+                subj_o, other_o = other_o, subj_o
+            out.append(dict(subject=subj, op=cond_op, other=other, pos=cmp_st[3], bb=b, fail_edge=(b, s, v), macro=cmp_st[4],
+                            subject_local=op_local(subj_o), other_local=op_local(other_o)))
     return out
 
 
